@@ -296,6 +296,11 @@ def fmt_format(ex, args):
         else:
             raise Unsupported(f"format template byte {b:#x} (non-default formatting spec)")
     ex.notes.append(("format", shape))
+    hook = getattr(ex.h, "format_hook", None)
+    if hook is not None:
+        r = hook(ex, shape, pieces)
+        if r is not None:
+            return Str(r)
     if not pieces:
         return Str("")
     return Str(z3.Concat(*pieces) if len(pieces) > 1 else pieces[0])
@@ -369,7 +374,7 @@ def call(ex, callee, args):
     if tt and tt[1].startswith("std::convert::Into<") and tt[2] == "into":
         model("Into::into = From::from of the target")
         tgt = tt[1][len("std::convert::Into<"):-1]
-        if tgt.strip() == tt[0].strip():
+        if ex.prog._short(tgt) == ex.prog._short(tt[0]):
             return args[0]
         return ex.call(None, f"<{tgt} as std::convert::From<{tt[0]}>>::from", args)
     if tt and tt[1].startswith("std::convert::TryInto<") and tt[2] == "try_into":
@@ -378,7 +383,7 @@ def call(ex, callee, args):
         return ex.call(None, f"<{tgt} as std::convert::TryFrom<{tt[0]}>>::try_from", args)
     if tt and tt[1].startswith("std::convert::From<") and tt[2] == "from":
         src = tt[1][len("std::convert::From<"):-1]
-        if src.strip() == tt[0].strip():
+        if ex.prog._short(src) == ex.prog._short(tt[0]):
             model("From<T> for T = identity")
             return args[0]
         if strip_generics(tt[0]).endswith("String") and isinstance(deref_all(ex, args[0]), Str):
@@ -459,15 +464,15 @@ def call(ex, callee, args):
             raise Unsupported("push on an abstract Vec")
         v.items.append(args[1])
         return Agg("tuple")
-    if base in ("std::vec::Vec::len", "core::slice::<impl [T]>::len") or re.match(r"core::slice::<impl \[.*\]>::len$", c):
+    if base == "std::vec::Vec::len" or re.match(r"core::slice::<impl \[.*\]>::len$", c):
         v = deref_all(ex, args[0])
         if isinstance(v, VecV):
             model("Vec::len")
             return IntV(len(v.items), "usize") if v.items is not None else IntV(vec_len(v.abs), "usize")
-    if re.match(r"core::slice::<impl \[.*\]>::iter$", base) or base == "std::vec::Vec::iter":
+    if re.match(r"core::slice::<impl \[.*\]>::iter$", c) or base == "std::vec::Vec::iter":
         model("slice::iter")
         return IterV("slice", args[0])
-    if re.match(r"core::slice::<impl \[.*\]>::get$", base):
+    if re.match(r"core::slice::<impl \[.*\]>::get(::<usize>)?$", c):
         model("slice::get: Some(&v[i]) iff i < len")
         v = deref_all(ex, args[0])
         idx = args[1]
